@@ -5,6 +5,9 @@ use crate::macgen::*;
 use crate::util::*;
 
 pub fn eval(op: &str) -> String {
+    if op.split_whitespace().nth(1) == Some("adev") {
+        return crate::adevgen::eval(op, crate::adevgen::oracle_c04_dev);
+    }
     let outs = run_history(op);
     format!("{} ## oracle={}", outs.join(" ; "), oracle(op, &outs))
 }
@@ -100,9 +103,20 @@ pub fn run(tier: &str, seed: u64, dir: &str) {
             sink.case(&op, &eval(&op), "random-history", true);
         }
     }
+    // device level: the real async Device (Class A and C) with a scripted radio
+    for region in REGIONS {
+        for _ in 0..(if thorough { 800 } else { 60 }) {
+            let op = crate::adevgen::gen_random_dev_history("C04", region, &mut rng);
+            sink.case(&op, &eval(&op), "device-random", true);
+        }
+        for i in 0..(if thorough { 400 } else { 30 }) {
+            let op = crate::adevgen::gen_join_history("C04", region, &mut rng, i % 2 == 0);
+            sink.case(&op, &eval(&op), "device-join", true);
+        }
+    }
     sink.finish(
         dir,
-        "MAC-level histories through the real Mac (verif hook): ABP / restored sessions at counter boundaries / OTAA joins with arbitrary DLSettings, RxDelay and CFLists (types 0, 1, RFU); uplinks on arbitrary ports incl. 0; per window nothing / rejected frames (random, bit-flipped, other key, replayed, far-future, wrong-key JoinAccept, short) / oversized / authentic downlinks carrying arbitrary handled, unhandled, unknown and truncated MAC commands in FOpts or on port 0; Class C receptions; ADR and data-rate changes; join bias on fixed plans; 9 regions; plus the DESIGN §6 panic/hang scenarios as a corpus. The device's RNG is owned by the harness with a draw budget so that an RNG-driven endless loop shows up as HANG. Distinct = distinct op lines; every history is non-trivial (>= 1 uplink).",
+        "device level: the real async Device (Class A and Class C) driven through join()/send() with a scripted radio (frames, junk, radio errors at arbitrary calls), a timer and the harness RNG under a minimal executor. MAC-level histories through the real Mac (verif hook): ABP / restored sessions at counter boundaries / OTAA joins with arbitrary DLSettings, RxDelay and CFLists (types 0, 1, RFU); uplinks on arbitrary ports incl. 0; per window nothing / rejected frames (random, bit-flipped, other key, replayed, far-future, wrong-key JoinAccept, short) / oversized / authentic downlinks carrying arbitrary handled, unhandled, unknown and truncated MAC commands in FOpts or on port 0; Class C receptions; ADR and data-rate changes; join bias on fixed plans; 9 regions; plus the DESIGN §6 panic/hang scenarios as a corpus. The device's RNG is owned by the harness with a draw budget so that an RNG-driven endless loop shows up as HANG. Distinct = distinct op lines; every history is non-trivial (>= 1 uplink).",
         false,
         serde_json::json!({}),
     );
